@@ -287,7 +287,7 @@ Fixpoint digits_fuel (fuel : nat) (n : N) (acc : text) : text :=
   end.
 Definition decimal (n : N) : text := digits_fuel 40 n [].
 
-(* abstractions.overused_constant: the first free index among 0..10, or give up *)
+(* abstractions.overused_constant.  First: the first free index among 0..10, or give up. *)
 Definition overused_name (i : N) : ident := text_of_string "pyrefact_overused_constant_"%string ++ decimal i.
 Fixpoint pick_fuel (fuel : nat) (i : N) (bl : list ident) : N :=
   match fuel with
@@ -297,15 +297,40 @@ Fixpoint pick_fuel (fuel : nat) (i : N) (bl : list ident) : N :=
 Definition pick_index (bl : list ident) : option N :=
   let i := pick_fuel 11 0%N bl in
   if mem (overused_name i) bl then None else Some i.
-(* the k generated names: the index is checked once, then only incremented *)
+(* Then, for every constant that needs a generated name:
+     while name(i) in blacklisted_names: i += 1          (fuel: more steps than names in the blacklist)
+     take name(i); i += 1; blacklisted_names |= {the new name}                                  *)
+Fixpoint next_free (fuel : nat) (i : N) (bl : list ident) : option N :=
+  match fuel with
+  | O => None
+  | S f => if mem (overused_name i) bl then next_free f (i + 1)%N bl else Some i
+  end.
+Fixpoint overused_seq (k : nat) (i : N) (bl : list ident) : list ident :=
+  match k with
+  | O => []
+  | S k' => match next_free (S (List.length bl)) i bl with
+            | None => []
+            | Some j => overused_name j :: overused_seq k' (j + 1)%N (overused_name j :: bl)
+            end
+  end.
 Definition overused_names (bl : list ident) (k : nat) : list ident :=
   match pick_index bl with
   | None => []
-  | Some i => map (fun j => overused_name (i + N.of_nat j)%N) (seq 0 k)
+  | Some i => overused_seq k i bl
   end.
+(* a variable named after a string constant: only when that name is free and an identifier *)
+Definition overused_string_name (bl : list ident) (candidate : ident) : option ident :=
+  if mem candidate bl || negb (is_ident candidate) then None else Some candidate.
 
-(* abstractions.simplify_if_control_flow: var_1, var_2, ... *)
+(* abstractions.simplify_if_control_flow: the first k names var_1, var_2, ... that are not in use
+   (itertools.count filtered; at most |used| candidates can be taken, so k + |used| suffice) *)
 Definition var_name (k : nat) : ident := text_of_string "var_"%string ++ decimal (N.of_nat (S k)).
-(* fixes._keys_to_items: re.sub("[^a-zA-Z]", "_", f"{value}_{target}") *)
+Definition var_names (used : list ident) (k : nat) : list ident :=
+  firstn k (filter (fun n => negb (mem n used)) (map var_name (seq 0 (k + List.length used)))).
+
+(* fixes._keys_to_items / _for_keys_to_items: re.sub("[^a-zA-Z]", "_", f"{value}_{target}"),
+   the rewrite is skipped when that name is already written somewhere in the module *)
 Definition keys_items_name (value target : text) : ident :=
   map (fun c => if is_alpha c then c else US) (value ++ US :: target).
+Definition keys_items_decision (used : list ident) (value target : text) : option ident :=
+  let n := keys_items_name value target in if mem n used then None else Some n.
